@@ -1,6 +1,75 @@
-"""C19 - see vf/props/fsfam.py (shared harness of the history properties) and DESIGN.md section 9."""
+"""C19 - event paths keep the caller's path type and the exact name.
+
+History part: see vf/props/fsfam.py (shared harness of the history properties) and DESIGN.md section 9.
+Registry part (this file): two handlers scheduled on one observer with symbolic spellings of the watched directory
+(str, bytes, trailing slash, another directory) and symbolic recursive flags: watches are one watch only if path type,
+spelling and flags agree, and every handler receives paths of the type it gave.
+"""
+import os
+
+from watchdog.events import FileCreatedEvent, FileSystemEventHandler
+from watchdog.observers.api import BaseObserver, EventEmitter, ObservedWatch
+
+from .. import api
 from . import fsfam_check
+
+SPELL = ("/r", b"/r", "/r/", "/q", b"/q")
+
+
+class QuietEmitter(EventEmitter):
+    def queue_events(self, timeout):
+        self.stopped_event.wait()
+
+
+class Rec(FileSystemEventHandler):
+    def __init__(self):
+        self.got = []
+
+    def dispatch(self, event):
+        self.got.append(event)
+
+
+def h_two_watches():
+    p1 = api.choice("path1", SPELL)
+    p2 = api.choice("path2", SPELL)
+    r1 = api.choice("recursive1", (False, True))
+    r2 = api.choice("recursive2", (False, True))
+    obs = BaseObserver(QuietEmitter)
+    h1 = Rec()
+    h2 = Rec()
+    w1 = obs.schedule(h1, p1, recursive=r1)
+    w2 = obs.schedule(h2, p2, recursive=r2)
+    same = (isinstance(p1, str) == isinstance(p2, str)) & (p1 == p2) & (r1 == r2)
+    api.check((w1 == w2) == same, "two watches are one watch only if path type, spelling and flags are the same")
+    api.check(len(obs.emitters) == (1 if same else 2), "every distinct watch has its own emitter")
+    api.check(isinstance(w1.path, str) == isinstance(p1, str), "a watch keeps the path type it was given")
+    api.check(isinstance(w2.path, str) == isinstance(p2, str), "a watch keeps the path type it was given")
+    # every emitter reports one entry below its own watched path, typed like that path
+    for em in list(obs.emitters):
+        base = em.watch.path
+        name = "x" if isinstance(base, str) else b"x"
+        em.queue_event(FileCreatedEvent(os.path.join(base, name)))
+    q = obs.event_queue
+    for k in range(2):
+        if not q.empty():
+            obs.dispatch_events(q)
+    api.reach("events dispatched")
+    for e in h1.got:
+        api.check(isinstance(e.src_path, str) == isinstance(p1, str), "a handler receives paths of the type it gave when scheduling")
+    for e in h2.got:
+        api.check(isinstance(e.src_path, str) == isinstance(p2, str), "a handler receives paths of the type it gave when scheduling")
+    api.check(len(h1.got) >= 1, "every handler receives the event of its watch")
+    api.check(len(h2.got) >= 1, "every handler receives the event of its watch")
+    if not same:
+        api.reach("two distinct watches")
+
+
+def setup(vm):
+    vm.native_classes.add(ObservedWatch)
 
 
 def check(rep):
-    fsfam_check.check(rep, "C19")
+    extra = [dict(name="C19: two handlers scheduled with symbolic spellings (str / bytes / trailing slash) of the directory",
+                  module=__name__, harness="h_two_watches", args=(), setup="setup", encode=("watchdog", "queue"), jobs=2,
+                  loop_bound=60)]
+    fsfam_check.check(rep, "C19", extra=extra)
